@@ -152,7 +152,7 @@ func runC16(c *Ctx) {
 				kind, path = "logout", "/logout"
 			case n%17 == 0:
 				kind = "unknown-cookie"
-			case n%3 == 1 && shared[t].Load() != nil:
+			case n%2 == 1 && shared[t].Load() != nil:
 				kind = "shared-session" // the same session presented by several goroutines at once (a page and its assets)
 			}
 			hdr := map[string]string{"x-tenant": fmt.Sprint(t)}
